@@ -216,6 +216,15 @@ def match_case(ck, rng, scratch, use_model=True):
             "end": None if open_kind in ("open-end", "open-both") else us(hi),
             "mi": mi_us, "micro": micro, "long": long_scale}
     run_match(ck, case, scratch, use_model)
+    # half-open periods whose finite bound lies INSIDE the data (with and without max_interval): the finite bound must
+    # still cut, only the open side is unbounded
+    if rng.random() < 0.35:
+        dmin, dmax = min(t1[0][0], t2[0][0]), max(t1[-1][1], t2[-1][1])
+        span_us = max(int((dmax - dmin) / dt.timedelta(microseconds=1)), 1)
+        cut = dmin + dt.timedelta(microseconds=rng.randint(0, span_us))
+        for start, end in ((us(cut), None), (None, us(cut))):
+            c2 = dict(case, start=start, end=end)
+            run_match(ck, c2, scratch, use_model)
 
 
 def run_match(ck, case, scratch, use_model=True):
@@ -288,7 +297,12 @@ def run_match(ck, case, scratch, use_model=True):
             line = f"match {mi_us or 0} {len(x1)} " + " ".join(f"{p} {q}" for p, q in x1) + f" {len(x2)} " + " ".join(f"{p} {q}" for p, q in x2)
             out = ck.driver([line])[0]
             model = [] if out == "-" else [(int(t.split(":")[0]), [int(j) for j in t.split(":")[1].split(",")]) for t in out.split()]
-            code = [(f1.index(p), [f2.index(s_) for s_ in ss]) for p, ss in got]
+            try:
+                code = [(f1.index(p), [f2.index(s_) for s_ in ss]) for p, ss in got]
+            except ValueError:
+                # match yielded a file outside the (widened) period: already judged above (gotc != want), no model comparison
+                ck.count("match/yielded-file-outside-period")
+                return
             if model != code:
                 ck.disagree(f"match: model {model[:5]} vs code {code[:5]}", case)
     finally:
